@@ -208,7 +208,7 @@ class ThemeContext:
         self.inherit = inherit
 
     def __enter__(self) -> "ThemeContext":
-        self.console.push_theme(self.theme)
+        self.console.push_theme(self.theme, inherit=self.inherit)
         return self
 
     def __exit__(self, exc_type, exc_val, exc_tb) -> None:
